@@ -35,7 +35,9 @@ PROPERTY = {
                    "instruction of the same name and length whose arguments equal the source arguments with every label replaced "
                    "by its final address (relative for branch destinations); every data directive holds the final value of its "
                    "expression. Bounded: exploration, not proof.",
-    "rule": "one case = one generated program with one choice of pins and destination interval",
+    "rule": "one case = one generated program with one choice of pins and destination interval; plus, shape-bounded SYMBOLIC (pyvc + "
+            "z3): BlockChain.fix_blocks on chains of 2..4 blocks with every pinned position keeps the pinned offset and makes the "
+            "blocks contiguous, for all block sizes and pinned addresses",
     "trusted_base": ["CPython executes the real functions; the per-instruction encoder / decoder (cpu.py tables) are used as they "
                      "are: an encoding error that decodes back to the same instruction is not seen here (C15 is not applicable)",
                      "the generator, the layout checks and the comparison are written independently in props/C32.py"],
@@ -272,6 +274,59 @@ class AsmCases(BoundedContract):
         return (why == "", why, True)
 
 
+# ---------------------------------------------------------------------------------------------------------------------------------
+# Deductive layer (pyvc, unbounded sizes and addresses; chain length and pinned position enumerated): BlockChain.fix_blocks
+
+def _mk_chain_target(nblocks, pinned):
+    def body(ctx):
+        from vc.terms import And
+        loc_db = LocationDB()
+        blocks = []
+        sizes = []
+        for i in range(nblocks):
+            lk = loc_db.add_location("c%d" % i)
+            b = asmblock.AsmBlock(loc_db, lk)
+            sz = ctx.int("size%d" % i, 1, None, rnd_hi=40)
+            b.size = sz
+            b.max_size = sz
+            blocks.append(b)
+            sizes.append(sz)
+        base = ctx.int("pinned_offset", 0x100000, None, rnd_hi=0x200000)
+        for sz in sizes:
+            ctx.assume(sz <= 0x1000)
+        r0 = ctx.call(LocationDB.set_location_offset, loc_db, blocks[pinned].loc_key, base)
+        rc = ctx.call(asmblock.BlockChain, loc_db, blocks)
+        if r0.raised or rc.raised:
+            ctx.check("no-raise:setup", False, kind="no-raise")
+            return
+        chain = rc.value
+        modified = set()
+        r = ctx.call(asmblock.BlockChain.fix_blocks, chain, modified)
+        if r.raised:
+            ctx.check("no-raise:%s" % type(r.exc).__name__, False, kind="no-raise")
+            return
+        ctx.cover("ret")
+        offs = [ctx.call(LocationDB.get_location_offset, loc_db, b.loc_key).value for b in blocks]
+        ctx.check("pinned-kept", offs[pinned] == base)
+        for i in range(nblocks - 1):
+            ctx.check("contiguous-%d" % i, offs[i] + sizes[i] == offs[i + 1])
+    return body
+
+
+def proof_targets():
+    from harness.core import Target
+    ts = []
+    for nblocks in (2, 3, 4):
+        for pinned in range(nblocks):
+            t = Target("C32/BlockChain.fix_blocks/blocks=%d,pinned=%d" % (nblocks, pinned),
+                       [asmblock.BlockChain.fix_blocks, asmblock.BlockChain.place, asmblock.BlockChain._set_pinned_block_idx, asmblock.fix_loc_offset],
+                       _mk_chain_target(nblocks, pinned), kind="bounded", bound="chains of 2..4 blocks, every pinned position; block sizes and the pinned address symbolic",
+                       params={"blocks": nblocks, "pinned": pinned})
+            t.expect_covers = ["ret"]
+            ts.append(t)
+    return ts
+
+
 def targets(tier):
-    return chunked(AsmCases, "C32/asm-layout", 16, tier)
+    return proof_targets() + chunked(AsmCases, "C32/asm-layout", 16, tier)
 
